@@ -73,7 +73,8 @@ class Taper(om.ExplicitComponent):
             xp = np.array([-span / 2, 0.0, span / 2])
             fp = np.array([taper_ratio, 1.0, taper_ratio])
 
-        taper = np.interp(x.real, xp.real, fp.real)
+        # fp keeps its complex part so that the complex-step derivative w.r.t. the taper ratio is correct
+        taper = np.interp(x.real, xp.real, fp)
 
         # Modify the mesh based on the taper amount computed per spanwise section
         outputs["mesh"] = np.einsum("ijk,j->ijk", mesh - ref_axis, taper) + ref_axis
@@ -103,12 +104,12 @@ class Taper(om.ExplicitComponent):
             xp = np.array([-span / 2, 0.0, span / 2])
             fp = np.array([taper_ratio, 1.0, taper_ratio])
 
-        taper = np.interp(x, xp, fp)
-
-        if taper_ratio == 1.0:
-            dtaper = np.zeros(taper.shape)
+        # The taper factor is linear in the taper ratio, so its derivative is the interpolation weight of the tip
+        # value(s): (1 - taper) / (1 - taper_ratio), also well defined at taper_ratio == 1.
+        if symmetry:
+            dtaper = np.interp(x, xp, np.array([1.0, 0.0]))
         else:
-            dtaper = (1.0 - taper) / (1.0 - taper_ratio)
+            dtaper = np.interp(x, xp, np.array([1.0, 0.0, 1.0]))
 
         partials["mesh", "taper"] = np.einsum("ijk, j->ijk", mesh - ref_axis, dtaper)
 
